@@ -1424,15 +1424,25 @@ class Exec:
         s1.assume(c)
         s2 = st.copy()
         s2.assume(bnot(c))
+        def keep_buffers(s_):
+            for bk, bv in s_.store.items():       # arrays allocated while evaluating a branch stay alive in the caller's state
+                if bk not in st.store:
+                    st.store[bk] = bv
         if not self.spec_mode:
             # a test that the path condition already decides (e.g. an attribute the contract fixes) selects its branch,
             # exactly as the statement form `if c: x = a else: x = b` would by pruning the infeasible path
             if not self.feasible(s2):
-                return self.eval(node.body, s1)
+                r_ = self.eval(node.body, s1)
+                keep_buffers(s1)
+                return r_
             if not self.feasible(s1):
-                return self.eval(node.orelse, s2)
+                r_ = self.eval(node.orelse, s2)
+                keep_buffers(s2)
+                return r_
         a = self.eval(node.body, s1)
         b = self.eval(node.orelse, s2)
+        keep_buffers(s1)
+        keep_buffers(s2)
         # obligations emitted while evaluating the branches carried the branch condition
         return ite(to_z3(c), a, b)
 
